@@ -186,3 +186,14 @@ Proof. unfold norm_rel, map_rel. simpl. now rewrite ulabels_idem. Qed.
 
 Lemma norm_rel_ok r : labels_ok (rlabels r) -> norm_rel r = r.
 Proof. intros H. unfold norm_rel, map_rel. rewrite ulabels_labels_ok by assumption. now destruct r. Qed.
+
+Theorem user_labels_all (stamp : string) (r : rel) :
+  is_stamp stamp ->
+  filter_system_labels (object_labels stamp r) = ulabels (rlabels r) /\
+  ulabels (object_labels stamp r) = ulabels (rlabels r) /\
+  labels_ok (ulabels (rlabels r)) /\
+  (labels_ok (rlabels r) -> ulabels (rlabels r) = rlabels r).
+Proof.
+  intros H. split; [now apply filter_object_labels_any|]. split; [now apply ulabels_object_labels|].
+  split; [apply ulabels_ok|apply ulabels_labels_ok].
+Qed.
